@@ -485,3 +485,195 @@ fn classify(w: &World, rq: &RQuery, real: &J, m: &Mismatch, text: &str, o: &mut 
         }
     }
 }
+
+/// readable regression case: the expected result is stated in the case
+pub fn run_text(t: &TextCase) -> Outcome {
+    use discret::verif::database::mutation_query::MutationQuery;
+    use discret::verif::database::query_language::data_model_parser::DataModel;
+    use discret::verif::database::query_language::mutation_parser::MutationParser;
+    use discret::verif::database::query_language::parameter::Parameters;
+    use discret::verif::database::sqlite_database::{prepare_connection, Writeable};
+    use std::sync::Arc;
+    let mut o = Outcome::default();
+    o.label("text-case");
+    o.nontrivial = true;
+    dv::world::begin_case(1);
+    let conn = rusqlite::Connection::open_in_memory().unwrap();
+    prepare_connection(&conn).unwrap();
+    let mut model = DataModel::new();
+    if let Err(e) = model.update(&t.models[0]) {
+        o.violation("harness:text-case-model", e.to_string());
+        return o;
+    }
+    let mut prev: Option<String> = None;
+    for phase in 0..2 {
+        let list = if phase == 0 { &t.mutations } else { &t.mutations_after };
+        for m in list {
+            dv::world::Clock::advance(1);
+            let parsed = match MutationParser::parse(m, &model) {
+                Ok(p) => p,
+                Err(e) => {
+                    o.violation("harness:text-case-mutation", format!("{}: {}", e, m));
+                    return o;
+                }
+            };
+            let mut params = Parameters::new();
+            if m.contains("$prev") {
+                params
+                    .params
+                    .insert("prev".into(), ParamValue::String(prev.clone().unwrap_or_default()));
+            }
+            let mut mq = match MutationQuery::execute(&mut params, Arc::new(parsed), &conn) {
+                Ok(q) => q,
+                Err(e) => {
+                    o.violation("harness:text-case-mutation", format!("{}: {}", e, m));
+                    return o;
+                }
+            };
+            mq.write(&conn).unwrap();
+            prev = mq.mutate_entities.first().map(|e| b64(&e.node_to_mutate.id));
+        }
+        if phase == 0 {
+            for m in &t.models[1..] {
+                if let Err(e) = model.update(m) {
+                    o.violation("harness:text-case-model", e.to_string());
+                    return o;
+                }
+            }
+        }
+    }
+    let mut params: BTreeMap<String, ParamValue> = BTreeMap::new();
+    for (k, v) in &t.params {
+        let pv = match v {
+            J::Null => ParamValue::Null,
+            J::Bool(b) => ParamValue::Boolean(*b),
+            J::Number(n) => match n.as_i64() {
+                Some(i) => ParamValue::Integer(i),
+                None => ParamValue::Float(n.as_f64().unwrap_or(0.0)),
+            },
+            J::String(s) => ParamValue::String(s.clone()),
+            other => ParamValue::String(other.to_string()),
+        };
+        params.insert(k.clone(), pv);
+    }
+    let schema = Schema {
+        entities: vec![],
+        user_entities: 0,
+        v1: String::new(),
+        v2: String::new(),
+        evolves: false,
+    };
+    let w = World {
+        conn,
+        model,
+        schema,
+        store: Store::default(),
+        keys: vec![],
+        rooms: vec![],
+        second: true,
+        op_errors: BTreeMap::new(),
+        trace: std::env::var("DV_TRACE").is_ok(),
+    };
+    if !t.walk_keys.is_empty() {
+        // paging walk over the text query
+        let root = t.expected.as_object().and_then(|o| o.keys().next().cloned()).unwrap_or_default();
+        let mut seen: Vec<J> = vec![];
+        let mut paging = String::new();
+        let mut p = params.clone();
+        let mut stop = "completed".to_string();
+        for _ in 0..50 {
+            let text = t.query.replace("%PAGING%", &paging);
+            let rows = match w.query(&text, &p) {
+                Ok(s) => serde_json::from_str::<J>(&s)
+                    .ok()
+                    .and_then(|j| j.get(&root).and_then(|a| a.as_array().cloned()))
+                    .unwrap_or_default(),
+                Err(e) => {
+                    stop = format!("query failed: {:?}", e);
+                    break;
+                }
+            };
+            if rows.is_empty() {
+                break;
+            }
+            seen.extend(rows.iter().cloned());
+            if seen.len() > 200 {
+                stop = "does not terminate".into();
+                break;
+            }
+            let last = rows.last().unwrap();
+            let mut names = vec![];
+            let mut null_key = false;
+            for (i, k) in t.walk_keys.iter().enumerate() {
+                let v = last.get(k).cloned().unwrap_or(J::Null);
+                let name = format!("k{}", i);
+                let pv = match &v {
+                    J::Null => {
+                        null_key = true;
+                        ParamValue::Null
+                    }
+                    J::Bool(b) => ParamValue::Boolean(*b),
+                    J::Number(n) => match n.as_i64() {
+                        Some(i) => ParamValue::Integer(i),
+                        None => ParamValue::Float(n.as_f64().unwrap_or(0.0)),
+                    },
+                    J::String(s) => ParamValue::String(s.clone()),
+                    other => ParamValue::String(other.to_string()),
+                };
+                p.insert(name.clone(), pv);
+                names.push(format!("${}", name));
+            }
+            if null_key {
+                stop = "the last row of the page has a NULL key: after() cannot express the position".into();
+                break;
+            }
+            paging = format!(", after({})", names.join(", "));
+        }
+        let real = serde_json::json!({ root.clone(): seen });
+        if !json_equal(&real, &t.expected, true) {
+            o.violation(
+                t.signature.clone(),
+                format!(
+                    "paging walk ({}): visited {} expected {} | query: {}",
+                    stop,
+                    serde_json::to_string(&real).unwrap(),
+                    serde_json::to_string(&t.expected).unwrap(),
+                    one_line(&t.query)
+                ),
+            );
+        }
+        return o;
+    }
+    match w.query(&t.query, &params) {
+        Ok(s) => {
+            let real: J = serde_json::from_str(&s).unwrap_or(J::Null);
+            if !json_equal(&real, &t.expected, true) {
+                o.violation(
+                    t.signature.clone(),
+                    format!(
+                        "real {} expected {} | query: {}",
+                        serde_json::to_string(&real).unwrap(),
+                        serde_json::to_string(&t.expected).unwrap(),
+                        one_line(&t.query)
+                    ),
+                );
+            }
+        }
+        Err(QueryError::Parse(m)) | Err(QueryError::Params(m)) => {
+            o.violation("harness:text-case-query-refused", format!("{} | {}", m, one_line(&t.query)));
+        }
+        Err(QueryError::Run(m)) => {
+            let head: String = m.chars().take(200).collect();
+            o.violation(
+                t.signature.clone(),
+                format!(
+                    "the query fails: {} | expected {} | query: {}",
+                    one_line(&head),
+                    serde_json::to_string(&t.expected).unwrap(),
+                    one_line(&t.query)
+                ),
+            );
+        }
+    }
+    o
+}
